@@ -16,6 +16,7 @@ import (
 	"flag"
 	"fmt"
 	"io"
+	"math"
 	"net/http"
 	"net/http/httptest"
 	"os"
@@ -304,6 +305,8 @@ var alterations = []string{
 	"chain-unhosted-resigned", "chain-hosted-notapp-resigned", "chain-app-nothosted-resigned", "chain-bad-resigned", "chain-empty-resigned", "chain-long-resigned", "chain-flip",
 	"sbh-plus1-resigned", "sbh-minus1-resigned", "sbh-prev-session-resigned", "sbh-zero-resigned", "sbh-negative-resigned", "sbh-arg-mismatch", "sbh-changed-unsigned",
 	"meta-high-edge", "meta-high-over", "meta-low-edge", "meta-low-under",
+	"meta-h-plus-minint64", "meta-h-plus-minint64-plus1", "meta-h-plus-minint64-minus1", "meta-h-minus-maxint64",
+	"meta-minint64", "meta-maxint64", "meta-zero", "meta-minus1", "meta-minus-h",
 	"entropy-negative-resigned", "entropy-changed",
 	"app-absent", "app-absent-at-session-present-now", "app-present-at-session-absent-now", "app-unstaking", "app-jailed", "app-unstaked-zero-relays", "app-chains-over-limit", "app-chains-over-limit-unenforced", "app-no-chains",
 	"evidence-sealed", "evidence-duplicate", "evidence-at-max", "evidence-some",
@@ -483,6 +486,24 @@ func (s *scenario) alter(r *gen.R, a string) {
 		s.resign(false, true)
 	case "meta-low-under":
 		s.relay.Meta.BlockHeight = s.e.height - int64(s.blockAllow) - 1
+		p.RequestHash = s.relay.RequestHashString()
+		s.resign(false, true)
+	case "meta-h-plus-minint64", "meta-h-plus-minint64-plus1", "meta-h-plus-minint64-minus1", "meta-h-minus-maxint64",
+		"meta-minint64", "meta-maxint64", "meta-zero", "meta-minus1", "meta-minus-h":
+		// client block heights at the int64 corners, derived from the node height (wrapping as Go does)
+		h := s.e.height
+		v := map[string]int64{
+			"meta-h-plus-minint64":        h + math.MinInt64,
+			"meta-h-plus-minint64-plus1":  h + math.MinInt64 + 1,
+			"meta-h-plus-minint64-minus1": h + math.MinInt64 - 1,
+			"meta-h-minus-maxint64":       h - math.MaxInt64,
+			"meta-minint64":               math.MinInt64,
+			"meta-maxint64":               math.MaxInt64,
+			"meta-zero":                   0,
+			"meta-minus1":                 -1,
+			"meta-minus-h":                -h,
+		}[a]
+		s.relay.Meta.BlockHeight = v
 		p.RequestHash = s.relay.RequestHashString()
 		s.resign(false, true)
 	case "entropy-negative-resigned":
